@@ -22,6 +22,7 @@ func init() {
 			"R3c with ForceFetch known true, extract.Endorsement returns success only after a successful network Get (a forced fetch never degrades to local evidence). " +
 			"R3b in the event-log lookup at most one locator is resolved per call (the first match in precedence order decides; a failed local locator does not fall through to the network one). R4 confinement: in extract/eventlog every os file access takes a path produced by securejoin.SecureJoin rooted at the reader's Root (error checked). " +
 			"R4b in the call closure of the event-log locator local evidence is read whole (no io.LimitReader / LimitedReader / CopyN, which truncate silently). " +
+			"R6 (= C18.R9, eventlog encoders) encoding an event does not modify it. " +
 			"R5b the events maker's result is published as file contents in the invocation that computed it and is never stored into a field or global (no unkeyed cache of events across firmwares). " +
 			"R5 emitted events: both SP800-155 events are built with one GUID value; the URI locator is GCETcbURL of a name derived from hex(golden digest). " +
 			"Not covered: parse-back equality of emitted events, symlink behaviour (securejoin trusted), the URL the firmware itself emitted in an event log (exel.Locate fetches it as is).",
@@ -39,6 +40,9 @@ func isGetterGet(call ssa.CallInstruction) bool {
 }
 
 func runC16(c *Ctx) {
+	// R6 = C18.R9: the event encoders leave the event they encode untouched, so the manifest GUID written into the
+	// second event is the one written into the first.
+	c.borrow("R6/C18.", runC18, func(rule, construct string) bool { return rule == "R9" && strings.Contains(construct, "eventlog") })
 	sevName := c.fn("R1", "extract/extractsev", "GCETcbObjectName")
 	tdxName := c.fn("R1", "extract/extracttdx", "GCETcbObjectName")
 	urlFn := c.fn("R1", "verify", "GCETcbURL")
@@ -531,10 +535,58 @@ func runC16(c *Ctx) {
 				}
 			}
 		}
-		same := len(guidArgs) >= 2
+		// stores of a manifest GUID into an event struct count as uses too (a maker that fills one event struct and
+		// hands it on has no GUID-typed call argument)
+		for _, b := range mk.Blocks {
+			for _, in := range b.Instrs {
+				if st, ok := in.(*ssa.Store); ok && namedIs(st.Val.Type(), evtPkg, "EfiGUID") {
+					if _, isField := st.Addr.(*ssa.FieldAddr); isField {
+						guidArgs = append(guidArgs, st.Val)
+					}
+				}
+			}
+		}
+		// one value for all uses, and not re-drawn inside a loop that contains a use
+		same := len(guidArgs) >= 1
+		mkLoops := naturalLoops(mk)
 		for _, g := range guidArgs {
 			if !sameStructValue(g, guidArgs[0]) {
 				same = false
+			}
+			// where the value is produced: a load of a local is produced where the local is written
+			var defBlocks []*ssa.BasicBlock
+			if u, ok := g.(*ssa.UnOp); ok {
+				if al, ok := u.X.(*ssa.Alloc); ok {
+					var collect func(addr ssa.Value, d int)
+					collect = func(addr ssa.Value, d int) {
+						if d > 3 || addr.Referrers() == nil {
+							return
+						}
+						for _, ref := range *addr.Referrers() {
+							switch r := ref.(type) {
+							case *ssa.Store:
+								if r.Addr == addr {
+									defBlocks = append(defBlocks, r.Block())
+								}
+							case *ssa.FieldAddr:
+								collect(r, d+1)
+							case *ssa.IndexAddr:
+								collect(r, d+1)
+							}
+						}
+					}
+					collect(al, 0)
+				}
+			}
+			if len(defBlocks) == 0 {
+				if def, ok := g.(ssa.Instruction); ok && def.Block() != nil {
+					defBlocks = append(defBlocks, def.Block())
+				}
+			}
+			for _, db := range defBlocks {
+				if L := innermostLoopOf(mkLoops, db); L != nil {
+					same = false // the GUID is produced inside a loop: each event could get its own
+				}
 			}
 		}
 		c.S.Check(same, "R5", name+":one GUID", c.pos(mk.Pos()), fmt.Sprintf("%d events share one manifest GUID value", len(guidArgs)), "the emitted events do not share one manifest GUID value")
